@@ -12,6 +12,7 @@ import (
 	"encoding/hex"
 	"errors"
 	"sort"
+	"strings"
 
 	errorsmod "cosmossdk.io/errors"
 	sdkmath "cosmossdk.io/math"
@@ -231,16 +232,15 @@ func gmpBytes(r *Rng) []byte {
 	}
 }
 
+// gmpBlank: strings.TrimSpace(sender) == "" (such senders are refused before any derivation)
+func gmpBlank(b []byte) bool {
+	return strings.TrimSpace(string(b)) == ""
+}
+
 func gmpSender(r *Rng) []byte {
 	for {
 		b := gmpBytes(r)
-		blank := true
-		for _, c := range string(b) {
-			if c != ' ' && c != '\t' && c != '\n' && c != '\r' && c != '\v' && c != '\f' && c != 0x85 && c != 0xA0 {
-				blank = false
-			}
-		}
-		if len(b) > 0 && !blank && len(b) <= 2048 {
+		if !gmpBlank(b) && len(b) <= 2048 {
 			return b
 		}
 	}
@@ -286,16 +286,8 @@ func gmpGen(r *Rng, n int, do func(M) any) {
 		}
 		do(M{"f": "addr", "client": Hex([]byte(client)), "sender": Hex(sender), "salt": Hex(salt)})
 		c2, s2, t2 := gmpShift(r, client, sender, salt)
-		if len(s2) > 0 && len(t2) <= 32 {
-			ok := false
-			for _, ch := range string(s2) {
-				if ch != ' ' {
-					ok = true
-				}
-			}
-			if ok {
-				do(M{"f": "addr", "client": Hex([]byte(c2)), "sender": Hex(s2), "salt": Hex(t2)})
-			}
+		if !gmpBlank(s2) && len(t2) <= 32 {
+			do(M{"f": "addr", "client": Hex([]byte(c2)), "sender": Hex(s2), "salt": Hex(t2)})
 		}
 	}
 	for h := 0; h < 1+n/20; h++ {
@@ -344,7 +336,7 @@ func gmpMonitor(r *Rng, n int, report func(Viol)) {
 		}
 		check(client, sender, salt)
 		c2, s2, t2 := gmpShift(r, client, sender, salt)
-		if len(s2) > 0 && s2[0] != ' ' {
+		if !gmpBlank(s2) {
 			check(c2, s2, t2)
 		}
 	}
@@ -394,10 +386,11 @@ func gmpMonitor(r *Rng, n int, report func(Viol)) {
 
 func init() {
 	Register(Engine{
-		Name:    "gmp",
-		Props:   []string{"C39"},
-		New:     func() Executor { return newGmpExec() },
-		Gen:     gmpGen,
-		Monitor: gmpMonitor,
+		Name:       "gmp",
+		MaxMonitor: 150000,
+		Props:      []string{"C39"},
+		New:        func() Executor { return newGmpExec() },
+		Gen:        gmpGen,
+		Monitor:    gmpMonitor,
 	})
 }
